@@ -490,7 +490,10 @@ def _check_restore_loops_unfiltered(prog: Program, L: Ledger) -> None:
         if fd is None or fd.qualname in seen:
             continue
         seen.add(fd.qualname)
-        for lp in [x for x in walk_no_nested(fd.node) if isinstance(x, ast.For)]:
+        from ..normalize import flat as _flat_rl
+
+        fdf = _flat_rl(prog, fd, ci)  # a shared `restore_attributes(instance, data)` helper is seen through
+        for lp in [x for x in walk_no_nested(fdf.node) if isinstance(x, ast.For)]:
             sets = [c for c in calls_in(lp) if isinstance(c.func, ast.Name) and c.func.id == "setattr" and len(c.args) == 3]
             if not sets:
                 continue
